@@ -12,8 +12,8 @@ TARGETS = ['theories/Props/C20.vo']
 def pools(rt):
     E = rt.EmptyCell
     d = dt.datetime
-    scal = [0, 1, 5, -2, 2.5, 0.07, 1234.5678, True, False, None, '', 'abc', 'Apple', 'a?b', 'a*', '[x]*', 'a~?c', '~*', '#N/A', '10', ' 5 ', '3,5', '12%',
-            d(2020, 1, 31), d(2024, 2, 29), d(2023, 5, 31, 12, 30), dt.date(2020, 1, 1)]
+    scal = [0, 1, 5, -2, 2.5, 0.07, 1234.5678, True, False, None, '', 'abc', 'Apple', 'a?b', 'a*', '[x]*', 'a~?c', '~*', '#N/A', '10', ' 5 ', '3,5', '12%', 'M', 'YM', 'D', 'Y', 'MD', 'YD',
+            d(2020, 1, 31), d(2024, 2, 29), d(2023, 5, 31, 12, 30), dt.date(2020, 1, 1), d(2023, 2, 28), d(2023, 4, 30), d(2021, 8, 31)]
     lists = [[], [1, 2, 3], [[1], [2], [3]], [[10, 'a'], [20, 'b'], [30, 'c']], [1, 'x', True, 2.5], [[1, 2], [3, 4]],
              [['apple'], ['pear'], ['Apple']], [[d(2023, 5, 1)], [d(2023, 5, 9)]], [0, 0, 1], ['#N/A', 1]]
     return scal, lists, E
@@ -40,13 +40,14 @@ def call_both(name, gen, ab, args):
     return canon(a), canon(b)
 
 
-def differential(R, names, budget):
+def differential(R, names, budget, boost=(), boost_budget=0):
     """Run helper `name` of the generated class and of a subclass of the base on the same arguments."""
     gen = I.runtime()
     ab = I.abstract_runtime()
     scal, lists, E = pools(gen)
     found = []
     n_eval = 0
+    base_budget = budget
     for name in names:
         try:
             sig = inspect.signature(getattr(gen, name))
@@ -61,6 +62,7 @@ def differential(R, names, budget):
         lam = [lambda x: x == 1, lambda x: True]
         if name in ('_sum_if', '_countifs', '_sumifs', '_averageifs', '_iferror'):
             pool = lists + lam + [1, 'a']
+        budget = boost_budget if name in boost else base_budget
         for ar in range(arity, min(maxar, 4) + 1):
             total = len(pool) ** ar
             if total <= budget:
@@ -116,7 +118,8 @@ def run(R, tier):
         R.extra['helpers_with_different_code'] = diff
         if tier == 'quick':
             budget = 400
-    found, n_eval = differential(R, names, budget)
+    # the helpers whose code differs get a deep search (the obligation already broke: this is the hunt for a concrete input)
+    found, n_eval = differential(R, names, budget, boost=set(R.extra.get('helpers_with_different_code', [])), boost_budget=40000)
     R.coverage['samples'] = [{'helper': '_regexp', 'args': "('a?b',)"}, {'helper': '_vlookup', 'args': "(5, [[10,'a'],[20,'b']], 2, True)"}]
     R.extra['helpers_executed'] = len(names)
     R.extra['differential_evaluations'] = n_eval
